@@ -457,9 +457,10 @@ package xpath
 //@   captures arg1 != nil && arg2 != nil
 //@   uses one-document
 //@   loop * invariant[cursor@C13] cur(t) == old(cur(t)) && pos(cur(t)) == old(pos(cur(t)))
-//@   ensures[before@C09] bound(i, 0) && !after ==> result == box(ite(word == "" || str_index(str, word) < 0, "", str[0:str_index(str, word)]))
-//@   ensures[after@C09] bound(i, 0) && after ==> result == box(ite(word == "" || str_index(str, word) < 0, "", str[str_index(str, word)+len(word):len(str)]))
-//@   ensures[empty-word@C09] bound(word, 1) && word == "" ==> result == box("")
+//@   ensures[before@C09] bound(i, 0) && !after ==> result == box(ite(str_index(str, word) < 0, "", str[0:str_index(str, word)]))
+//@   ensures[after@C09] bound(i, 0) && after ==> result == box(ite(str_index(str, word) < 0, "", str[str_index(str, word)+len(word):len(str)]))
+//@   ensures[empty-word-before@C09] bound(word, 1) && word == "" && !after ==> result == box("")
+//@   ensures[empty-word-after@C09] bound(word, 1) && word == "" && after ==> result == box(str)     // the empty string occurs at the start: everything follows it
 
 //@ func stringLengthFunc
 //@   props C15
